@@ -669,6 +669,12 @@ func TestVerifSeq(t *testing.T) {
 		dir := filepath.Join(out, fmt.Sprintf("db-%s-%d", profile, h))
 		os.RemoveAll(dir)
 		im := newSeqImpl(dir, 1+rng.n(3))
+		// configuration varies between histories: 1-5 workers; every third database defers (almost) every
+		// cleanup job (the Send timeout is shorter than a channel hand-over)
+		im.cfg.WPool.NumWorkers = 1 + h%5
+		if h%3 == 0 {
+			im.cfg.WPool.SendDuration = time.Nanosecond
+		}
 		if err := im.open(); err != nil {
 			t.Fatalf("open: %v", err)
 		}
